@@ -67,6 +67,9 @@ def run(facts, rep, tier):
             bad = [o["site"] for o in r.obligations if not o["ok"]]
             rep.add(Finding("R01.1", "definite panic : %s" % (bad[-1] if bad else r.ctx["label"]),
                             "every frame of context '%s' panics (%s)" % (r.ctx["label"], r.diverged), None, {"context": r.ctx["label"]}))
+        if r.diverged and r.diverged.startswith("imprecise"):
+            rep.add(Finding("R01.1", "analysis lost the frame : %s" % r.diverged.split("(")[0].strip(),
+                            "context '%s': %s - the obligations behind it cannot be discharged" % (r.ctx["label"], r.diverged[:200]), None))
         if r.diverged and "E2 broken" in r.diverged:
             raise Broken("E2 could not analyse context %s: %s" % (r.ctx["label"], r.diverged))
         for w in r.warnings:
